@@ -18,7 +18,7 @@ DesignKernels ==
 \* F1: every header shape in both positions, plain operands (variables, and a literal step)
 PlainKernels(poss, itys) ==
   {Shape(p, t, c, l, u, Op("var"), Op("var"), StepOf(u, sd)) :
-     p \in poss, t \in itys, c \in Cmps, l \in BOOLEAN, u \in Upds, sd \in {Op("var"), Lit(2)}}
+     p \in poss, t \in itys, c \in Cmps, l \in BOOLEAN, u \in Upds, sd \in {Op("var")}}
 
 \* F2: one operand at a time takes an operator class, on the aligned shapes `shapes` (triples)
 ClassKernels(poss, shapes, classes) ==
@@ -48,7 +48,7 @@ ThoroughArgs == {-3, -2, 0, 1, 2, 3, 5}
 
 AllClasses == Classes \ {"lit", "var"}
 QuickShapes == { <<"lt", TRUE, "preinc">>, <<"le", TRUE, "addeq">>, <<"gt", TRUE, "predec">>,
-                 <<"ge", TRUE, "subeq">>, <<"gt", FALSE, "postinc">>, <<"le", FALSE, "postdec">> }
+                 <<"ge", TRUE, "subeq">>, <<"ge", FALSE, "postinc">> }
 AlignedShapes == {s \in Cmps \X BOOLEAN \X Upds : IsAlignedShape(s[1], s[2], s[3])}
 
 QuickKernels ==
